@@ -521,10 +521,14 @@ class SymNum:
         return bool(SymBool(self.t != 0))
 
     def __hash__(self):
-        c = self.concrete()
-        if c is None:
-            raise Unsupported("hash of a symbolic number")
-        return hash(c)
+        # Proxies used as dict/set keys all fall into one bucket; CPython then decides
+        # membership with __eq__, which forks - exact semantics as long as EVERY key of that
+        # container is a proxy (use S.pin for constants).  A container mixing real Python
+        # numbers and proxies is out of reach: the use is recorded on the path and reported.
+        c = _CTX
+        if c is not None:
+            c.proxy_hashed = True
+        return 0x5EED
 
     # -- conversions --------------------------------------------------------
     def __floor__(self):
